@@ -204,10 +204,14 @@ def run(tier, seed):
     k = seed % max(1, len(cases))
     cases = cases[k:] + cases[:k]
     res = Result()
+    ck = _check_chunked(tier)
+    res.merge(ck)
+    if ck.violations:
+        # the completion-order controller relies on chunks having the requested size: explore only the unchunked members
+        cases = [c for c in cases if c['impl'] == 'iter' or c['chunksize'] >= 1000]
     for r in pmap(_run_case, cases, chunksize=4):
         res.merge(r)
     res.coverage.pop('schedules_by_case', None)
-    res.merge(_check_chunked(tier))
     cov = res.coverage
     cov['family_members'] = len(cases)
     cov['traces_validated_against_impl'] = cov['evaluations']
